@@ -200,6 +200,11 @@ impl<'tcx> Cx<'tcx> {
                 if d.is_local() { "1" } else { "0" }
             );
         }
+        if let Const::Unevaluated(uv, _) = c {
+            if let Some(p) = uv.promoted {
+                return format!("[\"k\",{},{}]", js(&format!("promoted:{}", p.as_usize())), js(&tys));
+            }
+        }
         let is_scalar = matches!(t.kind(), ty::Bool | ty::Char | ty::Int(_) | ty::Uint(_));
         if is_scalar {
             if let Some(si) = c.try_eval_scalar_int(self.tcx, tenv) {
@@ -623,6 +628,33 @@ impl rustc_driver::Callbacks for Cb {
                 out.push('}');
             }
             out.push_str("]");
+            // promoted constants: the value expression of each (first assignment of its tiny body)
+            {
+                let proms = tcx.promoted_mir(did);
+                if !proms.is_empty() {
+                    out.push_str(",\"promoted\":[");
+                    for (pi, pb) in proms.iter().enumerate() {
+                        if pi > 0 {
+                            out.push(',');
+                        }
+                        let mut v = String::from("null");
+                        let ptenv = tenv;
+                        'outer: for data in pb.basic_blocks.iter() {
+                            for st in &data.statements {
+                                if let StatementKind::Assign(b) = &st.kind {
+                                    let (_, rv) = &**b;
+                                    if !matches!(rv, Rvalue::Ref(..)) {
+                                        v = cx.rvalue(pb, ptenv, rv);
+                                        break 'outer;
+                                    }
+                                }
+                            }
+                        }
+                        out.push_str(&v);
+                    }
+                    out.push(']');
+                }
+            }
             // coroutine layout: types of locals saved across suspension points
             if is_co {
                 if let Some(layout) = body.coroutine_layout_raw() {
